@@ -47,6 +47,8 @@ fn pair(a: Val, b: Val) -> Val {
 #[derive(Default)]
 pub struct Counters {
   pub tap: Vec<usize>,
+  /// items pulled from counting iterators (`iterc`)
+  pub pulls: usize,
 }
 
 /// Per-case environment of the local flavour.
@@ -84,6 +86,13 @@ impl LCtx {
     };
     move |_| c.borrow_mut().tap[k] += 1
   }
+  fn pull_counter(&self) -> impl Fn(i64) -> Val + Clone + 'static {
+    let c = self.counters.clone();
+    move |k| {
+      c.borrow_mut().pulls += 1;
+      Val::Int(k)
+    }
+  }
   fn create(&self, script: Vec<Notif>) -> LBox {
     let creates = self.creates.clone();
     observable::create(move |s: Subscriber<BoxObserver<'static, Val, i64>>| {
@@ -116,6 +125,13 @@ impl TCtx {
       g.tap.len() - 1
     };
     move |_| c.lock().unwrap().tap[k] += 1
+  }
+  fn pull_counter(&self) -> impl Fn(i64) -> Val + Clone + Send + 'static {
+    let c = self.counters.clone();
+    move |k| {
+      c.lock().unwrap().pulls += 1;
+      Val::Int(k)
+    }
   }
   fn create(&self, script: Vec<Notif>) -> TBox {
     let creates = self.creates.clone();
@@ -160,6 +176,11 @@ macro_rules! impl_build {
         "iter" => {
           let vs: Vec<Val> = xs[1..].iter().map(Val::parse).collect();
           observable::from_iter(vs).on_error_map(widen).box_it()
+        }
+        "iterc" => {
+          // from_iter over a lazy iterator that counts every item pulled from it
+          let n = xs[1].nat() as i64;
+          observable::from_iter((0..n).map(ctx.pull_counter())).on_error_map(widen).box_it()
         }
         "repeat" => observable::repeat(Val::parse(&xs[1]), xs[2].nat()).on_error_map(widen).box_it(),
         "empty" => {
